@@ -94,6 +94,20 @@ func FaultEnum(run *ev.Run, backends []string, pres []FaultPre, cases []FaultCas
 			report(Finding{Tag: "panic", Msg: fmt.Sprintf("dry run panicked: %v", dry.Panic)}, -1, "none")
 			return
 		}
+		// the fault-free run itself: its outcome must be what the reference model says (an operation that must fail
+		// because of invalid input has to fail, without any effect)
+		if !t.c.Read {
+			in.Fresh(snap)
+			_, next, fs := drv.Step(in, model, t.c.Op)
+			for _, f := range fs {
+				report(Finding{Tag: "fault-free-run", Msg: f.Msg}, -1, "none")
+			}
+			for _, f := range drv.AuditAPI(in, next, drv.AuditOpts{}) {
+				if f.Tag == "state" || f.Tag == "count" || f.Tag == "indexquery" {
+					report(Finding{Tag: "fault-free-run", Msg: f.Msg}, -1, "none")
+				}
+			}
+		}
 		kinds := []string{}
 		for _, c := range trace {
 			if c.FSeq >= 0 {
